@@ -403,6 +403,22 @@ func vC15Parse(raw []byte, method string, res map[string]any) {
 	}
 }
 
+// c15MakePages: the custom error pages of this check: the shared good set plus a 504 page that is a template with a field
+// reference (target failures are rendered with nil arguments: the {{ else }} branch).
+func c15MakePages(t *testing.T) string {
+	dir := filepath.Join(t.TempDir(), "pages_c15")
+	os.MkdirAll(dir, 0o700)
+	if entries, err := os.ReadDir(filepath.Join(vAssets, "pages_good")); err == nil {
+		for _, e := range entries {
+			if b, err := os.ReadFile(filepath.Join(vAssets, "pages_good", e.Name())); err == nil {
+				os.WriteFile(filepath.Join(dir, e.Name()), b, 0o600)
+			}
+		}
+	}
+	os.WriteFile(filepath.Join(dir, "504.html"), []byte("custom504[{{ if .Message }}{{ .Message }}{{ else }}none{{ end }}]"), 0o600)
+	return dir
+}
+
 func TestVerifC15(t *testing.T) {
 	cases := verifCases(t)
 	out := verifOpenOut(t)
@@ -411,6 +427,7 @@ func TestVerifC15(t *testing.T) {
 		t.Fatalf("verif: first case must be the configuration")
 	}
 	vMakeAssets(t)
+	c15Pages := c15MakePages(t)
 	oldLog := slog.Default()
 	slog.SetDefault(slog.New(slog.NewTextHandler(io.Discard, nil)))
 	defer slog.SetDefault(oldLog)
@@ -524,7 +541,7 @@ func TestVerifC15(t *testing.T) {
 		hookMu.Unlock()
 		so := ServiceOptions{Hosts: []string{s.host}}
 		if vBool(m["custom"]) {
-			so.ErrorPagePath = filepath.Join(vAssets, "pages_good")
+			so.ErrorPagePath = c15Pages
 		}
 		to := TargetOptions{
 			HealthCheckConfig:   HealthCheckConfig{Path: DefaultHealthCheckPath, Interval: time.Hour, Timeout: 5 * time.Second},
@@ -541,9 +558,9 @@ func TestVerifC15(t *testing.T) {
 
 	results := make([]map[string]any, len(cases))
 	custom := map[string]string{}
-	if entries, err := os.ReadDir(filepath.Join(vAssets, "pages_good")); err == nil {
+	if entries, err := os.ReadDir(c15Pages); err == nil {
 		for _, e := range entries {
-			if b, err := os.ReadFile(filepath.Join(vAssets, "pages_good", e.Name())); err == nil {
+			if b, err := os.ReadFile(filepath.Join(c15Pages, e.Name())); err == nil {
 				custom[e.Name()] = vHex(b)
 			}
 		}
@@ -728,7 +745,7 @@ func vC15StallCase(t *testing.T, c map[string]any) map[string]any {
 		handler := server.buildHandler()
 		so := ServiceOptions{Hosts: []string{"stall.test"}}
 		if vBool(c["custom"]) {
-			so.ErrorPagePath = filepath.Join(vAssets, "pages_good")
+			so.ErrorPagePath = c15MakePages(t)
 		}
 		to := TargetOptions{
 			HealthCheckConfig:   HealthCheckConfig{Path: DefaultHealthCheckPath, Interval: time.Hour, Timeout: 5 * time.Second},
